@@ -1542,6 +1542,7 @@ func main() {
 	runHeavyFaults(g)
 	runIDs(g)
 	runHTTPConcFamily(g)
+	runLongLineFamily(g)
 	runBigFamily(g)
 }
 
